@@ -397,7 +397,9 @@ def run_sequence(repo: Repo, seq, adds, check_all: bool = False) -> List[Tuple[s
                 if op == "X":
                     c.sa_attr("__exit__")(None, None, None)
                 else:
-                    c.sa_attr("__exit__")(Record("type", {"name": "RuntimeError"}), Record("exception", {"name": "RuntimeError"}), Record("traceback", {}))
+                    rv = c.sa_attr("__exit__")(Record("type", {"name": "RuntimeError"}), Record("exception", {"name": "RuntimeError"}), Record("traceback", {}))
+                    if rv is not None and rv is not False and not (isinstance(rv, (int, str, bytes, list, tuple, dict)) and not rv):
+                        devs.append(("exit-swallows-exception", f"after `{' ; '.join(seq[: i + 1])}` __exit__ returns {rv!r} for an exception raised inside the context: a truthy value suppresses it (an UnsafeFileError raised by a refused load would vanish)"))
             elif op.startswith("U:"):
                 u = env.new_unpickler(adds[op[2:]])
         except PyRaise as pe:
@@ -547,7 +549,7 @@ def nested_worlds(repo: Repo) -> Tuple[Dict[str, Tuple[int, str]], int]:
 
 
 C11_KEYS = ("allowed-set:", "unpickler-allowed-set:", "builtin-table-altered", "bystander-changes-protection", "not-mediated:")
-C12_KEYS = ("exit-does-not-restore", "not-original-after-removal", "flagged-pickle-loads", "enclosing-protection-dropped", "operation-raises", "bystander-changes-protection:C")
+C12_KEYS = ("exit-swallows-exception", "exit-does-not-restore", "not-original-after-removal", "flagged-pickle-loads", "enclosing-protection-dropped", "operation-raises", "bystander-changes-protection:C")
 C07_KEYS = ("allowed-set:", "not-mediated:", "nested-")
 
 
